@@ -446,3 +446,9 @@ for n, w in (("c17_churn_r3_nolag", "every handle announces in every round"), ("
     H(n, M, "C17", ["C17", "C16"], "quick",
       "REAL MemoryManager, 3 rounds of 21 retirements, " + w + "; conservation oracle: retired == freed + pending after every round, at most two batches pending at the end",
       "64 retirements, 2 tokens, sequential", rules=MEMRULES + [(r' @ src/scen_mem', 30)], fp_restrict=FP, builtin_oracle=True, unwind=6, mem_gb=24)
+for n, w in (("c15_bc_hist6", "broadcast N=1, first 6 steps"), ("c15_mp_hist6", "mpmc N=2, first 6 steps"), ("c15_mp_hist8", "mpmc N=1, first 8 steps (two polls that may park)")):
+    H(n, FU, "C15", ["C15", "C09"], "quick",
+      "skeleton start_send start_send try_recv start_send try_send poll_complete [poll poll] after the concrete warm-up, every call optional, inside a task, vs the model: " + w,
+      "sequential", rules=FUTRULES)
+for n in ("c15_bc_hist", "c15_mp_hist"):
+    HARNESSES[n]["tier"] = "thorough"
